@@ -78,12 +78,24 @@ TYPES = {
         ('RBuild', ['con', 'val', KW]),
         ('RSizeof', ['con', KW]),
         ('REval', ['expr', KW]),
+        ('RHexdump', ['bytes', 'N']),
+        ('RHexundump', ['bytes', 'N']),
+        ('RCops', [L('cop')]),
     ],
+    'step': [('SKey', [NAME]), ('SIdx', ['nat'])],
+    'cop': [
+        ('CNew', ['val']), ('CCopy', ['nat']), ('CDeepcopy', ['nat']), ('CPickle', ['nat']),
+        ('CSet', ['nat', L('step'), NAME, 'val']), ('CDel', ['nat', L('step'), NAME]), ('CAppend', ['nat', L('step'), 'val']),
+        ('CObserve', ['nat']), ('CAttr', ['nat', L('step'), NAME]), ('CEq', ['nat', 'nat']),
+    ],
+    'cout': [('OVal', ['val']), ('OBool', ['bool']), ('OFail', [])],
     'response': [
         ('ROkParse', ['val', 'Z']),
         ('ROkBuild', ['val', 'bytes']),
         ('ROkSize', ['Z']),
         ('ROkVal', ['val']),
+        ('ROkBytes', ['bytes']),
+        ('ROuts', [L('cout')]),
         ('RErr', ['err', O(L(NAME))]),
     ],
 }
